@@ -2,9 +2,9 @@
 
 # model .vo files the extraction depends on (relative to coq/)
 MODEL_VO = ['gen/Consts.vo', 'gen/CrcTables.vo', 'model/Bytes.vo', 'model/Codec.vo', 'model/Order.vo', 'model/Crc.vo',
-            'model/Block.vo', 'model/Writer.vo', 'model/WriteLoop.vo', 'spec/Leb128.vo', 'spec/Parse.vo', 'model/Reader.vo', 'model/Verify.vo', 'model/Compress.vo']
+            'model/Block.vo', 'model/Writer.vo', 'model/WriteLoop.vo', 'spec/Leb128.vo', 'spec/Parse.vo', 'model/Reader.vo', 'model/Verify.vo', 'model/Compress.vo', 'model/Heap.vo', 'model/Merger.vo']
 # OCaml modules of the driver, in link order
-OCAML_MODULES = ['common', 'gen', 'enc', 'c16', 'wr', 'c20', 'rd', 'c19', 'c17', 'c12', 'c15', 'main']
+OCAML_MODULES = ['common', 'gen', 'enc', 'c16', 'wr', 'c20', 'rd', 'c19', 'c17', 'c12', 'c15', 'mg', 'main']
 C_VARIANTS_SETUP = ('all',)
 EXTRA_BUILDS = []
 COQ_TIMEOUT = 3000
@@ -83,6 +83,20 @@ PROPS = {
         'assumptions': ['PARTIAL: T11_any_layout_partial (block iterator correct for any legal restart positions / sharing); decoding bytes into blocks and the index hand-over of C11_statement are validated by engine rd on encoder-made v1/v2 files',
                         '64-bit restart arrays (blocks above 4 GiB) are modelled (block_init arithmetic) but not executed'],
         'explanation': 'Files from an independent encoder with random legal layouts (format v1 and v2, arbitrary block boundaries, restart positions, non-maximal sharing, shortened separators, compression) are read by implementation and model: iteration, lookups, seek histories.',
+    },
+    'C04': {
+        'engines': [{'name': 'mg', 'timeout_quick': 600, 'timeout_thorough': 7200}],
+        'trusted_base': ['test merge (concatenation with separator) and dupsort callbacks and the user-defined source in ocaml/stubs.c'],
+        'assumptions': ['PARTIAL: C04_statement is stated; proved are the comparison order (T04_cmp_partial) and computed instances (T04_examples); heap and loop invariants for all families are not yet proved',
+                        'sources obey the iterator contract of C03 (ideal cursors in the model; real readers and a user-defined source in the engine)',
+                        'fold ORDER among the values of one key is unspecified by the property: the specification check compares multisets of atoms; the model predicts the exact order and is compared exactly'],
+        'explanation': 'Implementation vs model/Merger.v (array heap with the C tie-breaks, pending/cur_key bookkeeping) vs the specification (sorted union, each value folded exactly once, dupsort order, failure on failing merge) over source families of readers and of buffer-invalidating user sources.',
+    },
+    'C05': {
+        'engines': [{'name': 'mg', 'timeout_quick': 600, 'timeout_thorough': 7200}],
+        'trusted_base': ['test merge / dupsort callbacks and the user-defined source in ocaml/stubs.c'],
+        'assumptions': ['PARTIAL: C05_statement is stated; proved are the seek decision (T05_seek_decision_partial) and computed histories (T05_examples)'],
+        'explanation': 'next/seek histories and get/get_prefix/get_range on merger sources: implementation = model = cursor over the merged content (keys exactly, values as multisets of atoms).',
     },
     'C12': {
         'engines': [{'name': 'c12', 'timeout_quick': 600, 'timeout_thorough': 7200}, {'name': 'c17', 'timeout_quick': 600, 'timeout_thorough': 7200}],
